@@ -119,7 +119,13 @@ func (self *StreamDecoder) Decode(val interface{}) (err error) {
 		}
 
 		// the native skip may frame more than the value the decoder consumed
-		self.scanp = s + self.Decoder.Pos()
+		// Pos() counts in the decoder's own copy of the frame, which is longer than the
+		// input when ValidateString replaced ill-formed UTF-8: never advance beyond the frame
+		n := self.Decoder.Pos()
+		if n > e-s {
+			n = e - s
+		}
+		self.scanp = s + n
 		_, empty := self.scan()
 		if empty {
 			// no remain valid bytes, thus we just recycle buffer
